@@ -416,6 +416,17 @@ func runC05(c *Ctx) {
 				if _, isConst := cv.X.(*ssa.Const); isConst {
 					return
 				}
+				// only conversions that end up as a duration (the back-off): other float-to-integer
+				// conversions are not this rule's business
+				isDur := isNamed(cv.Type(), "time", "Duration")
+				for _, u := range transitiveUses(cv) {
+					if v, ok := u.(ssa.Value); ok && v.Type() != nil && isNamed(v.Type(), "time", "Duration") {
+						isDur = true
+					}
+				}
+				if !isDur {
+					return
+				}
 				n++
 				construct := fmt.Sprintf("%s: float to integer conversion", fname(fn))
 				bounded := false
